@@ -679,8 +679,10 @@ def splice_module(mod: str, src: str, recs, report, havoc=(), variant="main"):
             have = re.findall(r"(?m)^\s*(?:pub(?:\([a-z]+\))?\s+)?([a-z_][a-z0-9_]*)\s*:", masked[so + 1:sc])
             want_f = [x.strip() for x in body.replace("\n", ",").split(",") if x.strip()]
             if have != want_f:
-                raise ExtractError("contract-stale: fields of struct %s::%s are %s, the contract (%s) was written for %s" % (
-                    mod, sname, have, rec.origin, want_f))
+                # reported to the driver, which stops (exit 2, "contract-stale") only for the properties the guard protects;
+                # contracts of other properties simply do not constrain the new field
+                report.setdefault("stale_fields", []).append({"struct": "%s::%s" % (mod, sname), "have": have, "want": want_f, "origin": rec.origin,
+                                                              "props": [x for x in rec.opts.get("props", "").split(",") if x]})
             anchors.append({"kind": k, "anchor": "%s::struct %s" % (mod, sname), "origin": rec.origin})
         elif k == "module":
             module_items.append(body)
